@@ -21,6 +21,13 @@
 (***************************************************************************)
 EXTENDS Naturals, Sequences
 
+\* "asbuilt", or one of the mutants used as negative controls of Protocol (MC_Wrapper_neg_*.cfg):
+\*   "no_zod_guard"  the catch block reports validation errors to onInvokeError as well
+\*   "raw_params"    invoke receives the raw object although a schema validated it
+\*   "settled_on_success_only"  onSettled is called after onSuccess instead of in a finally block
+\*   "swallow"       the catch block does not rethrow
+CONSTANT Variant
+
 HookNames == {"onValidationError", "onInvokeError", "onSuccess", "onSettled"}
 Kinds == {"plain", "noparams", "values", "channels", "both"}
 Validates(kind) == kind \in {"values", "both"}
@@ -31,7 +38,7 @@ Ev(w, a) == [what |-> w, arg |-> a]
 \* what invoke receives
 InvokeArg(kind) == CASE kind = "plain"    -> "params"
                      [] kind = "noparams" -> "nothing"
-                     [] kind = "values"   -> "validated"
+                     [] kind = "values"   -> IF Variant = "raw_params" THEN "params" ELSE "validated"
                      [] kind = "channels" -> "params"
                      [] kind = "both"     -> "validated+channels"
 
@@ -67,11 +74,12 @@ Step(kind, env, st) ==
             ELSE Tau(St("finally", "none", "data"))
       [] st.pc = "catch" ->
             \* as built: every exception that is not a ZodError reaches onInvokeError, also one thrown by a hook
-            IF (Validates(kind) /\ st.err = "zod") \/ ~Present(env, "onInvokeError")
-            THEN Tau(St("finally", st.err, "none"))
-            ELSE Obs(St("finally", IF Throws(env, "onInvokeError") THEN "hook" ELSE st.err, "none"), Ev("onInvokeError", st.err))
+            IF (Validates(kind) /\ st.err = "zod" /\ Variant # "no_zod_guard") \/ ~Present(env, "onInvokeError")
+            THEN Tau(St("finally", IF Variant = "swallow" THEN "none" ELSE st.err, "none"))
+            ELSE Obs(St("finally", IF Throws(env, "onInvokeError") THEN "hook" ELSE IF Variant = "swallow" THEN "none" ELSE st.err, "none"),
+                     Ev("onInvokeError", st.err))
       [] st.pc = "finally" ->
-            IF Present(env, "onSettled")
+            IF Present(env, "onSettled") /\ (Variant # "settled_on_success_only" \/ st.err = "none")
             THEN Obs(IF Throws(env, "onSettled") THEN St("done", "hook", "none") ELSE St("done", st.err, st.ret), Ev("onSettled", "nothing"))
             ELSE Tau(St("done", st.err, st.ret))
       [] st.pc = "done" ->
